@@ -563,6 +563,63 @@ class Built(Case):
         self.load_order = list(self.named)
 
 
+PRELUDES = ['wrong-key', 'clash-child', 'backend-only', 'timetype', 'numpy-count', 'nested-timetype']
+
+
+class AfterFailure(Case):
+    """a random forest stored on a PulseStorage on which a store has been rejected / has failed mid-transaction
+    before: everything whose store returned normally must load through a fresh storage; the failed store must leave
+    no trace (its already collected named sub-template 'zq' is not written)."""
+
+    def __init__(self, seed: int, opts: dict, prelude: str):
+        super().__init__(seed, dict(opts))
+        P = _q()['P']
+        import numpy
+        from qupulse.utils.types import TimeType
+        self.prelude = prelude
+        x1 = P.ConstantPT(1, {'A': 'v0'}, identifier='zz')
+        x2 = P.ConstantPT(2, {'A': 1}, identifier='zz', measurements=[('m', 0, 1)])
+        ok = P.ConstantPT(1, {'A': 1}, identifier='zq')
+        pre, self.pre_other, self.must_raise = [], [], True
+        with warnings.catch_warnings():
+            warnings.simplefilter('ignore')
+            if prelude == 'wrong-key':
+                self.failing = ('zp', x1)
+            elif prelude == 'clash-child':
+                pre = [x1]
+                self.failing = ('zp', P.SequencePT(ok, x2, identifier='zp'))
+            elif prelude == 'backend-only':
+                pre = [x1]
+                self.pre_other = [x1]
+                self.failing = ('zp', P.SequencePT(ok, x2, identifier='zp'))
+            elif prelude == 'timetype':
+                self.must_raise = False      # (PF-C10f: would be a valid store once that finding is repaired)
+                self.failing = ('zp', P.ConstantPT(TimeType.from_fraction(3, 2), {'A': 1}, identifier='zp'))
+            elif prelude == 'numpy-count':
+                self.must_raise = False      # (PF-C10g)
+                self.failing = ('zp', P.RepetitionPT(ok, numpy.int64(3), identifier='zp'))
+            else:
+                self.must_raise = False
+                self.failing = ('zp', P.SequencePT(ok, P.ConstantPT(TimeType.from_fraction(3, 2), {'A': 1}),
+                                                   identifier='zp'))
+        self.roots = pre + self.roots
+        self.finish(self.backend)
+        self.order = pre + [o for o in self.order if all(o is not x for x in pre)]
+        self.n_pre = len(pre)
+        self.origin = {'kind': 'after-failure', 'case_seed': seed, 'opts': dict(opts), 'prelude': prelude}
+
+
+def after_failure_cases(ctx: core.Ctx, n: int, stream: str, opts: dict):
+    rng = ctx.fork(stream)
+    for k in range(n):
+        seed = rng.getrandbits(48)
+        prelude = PRELUDES[k % len(PRELUDES)]
+        try:
+            yield AfterFailure(seed, opts, prelude)
+        except Exception as e:  # noqa
+            ctx.count('generator-rejected:' + type(e).__name__)
+
+
 def run_impl(case: Case) -> dict:
     """store through a real PulseStorage, load through fresh ones; returns raw observations"""
     Q = _q()
@@ -571,9 +628,27 @@ def run_impl(case: Case) -> dict:
     be = Backends(case.backend)
     try:
         log: list = []
+        pre_other = getattr(case, 'pre_other', [])
+        if pre_other:
+            # stored by somebody else: through another PulseStorage over the same backend
+            ps0 = S.PulseStorage(be.open())
+            for pt in pre_other:
+                ps0[pt.identifier] = pt
         backend = recording(be.open(), log)
         ps = S.PulseStorage(backend)
-        obs['store'] = outcome(lambda: [ps.__setitem__(pt.identifier, pt) for pt in case.order] and None)
+        n_pre = getattr(case, 'n_pre', 0)
+        failing = getattr(case, 'failing', None)
+
+        def store_all():
+            for pt in case.order[:n_pre]:
+                if not any(pt is x for x in pre_other):
+                    ps[pt.identifier] = pt
+            if failing is not None:
+                # a store that is rejected / fails in the middle of its transaction, on the SAME PulseStorage
+                obs['failing'] = outcome(lambda: ps.__setitem__(failing[0], failing[1]))
+            for pt in case.order[n_pre:]:
+                ps[pt.identifier] = pt
+        obs['store'] = outcome(store_all)
         obs['writes'] = list(log)
         fresh = be.open()
         ids = sorted(fresh)
@@ -655,15 +730,24 @@ def judge_case(ctx: core.Ctx, rec: dict, answers: list) -> List[str]:
     ctx.count('%s:nodes' % label, len(case.nodes))
     if case.gen.shared_uses:
         ctx.count('%s:cases-with-shared-object' % label)
+    for k, v in case.gen.stats.items():
+        if k.startswith('with:') or k.startswith('amc:') or k.startswith('mapping:'):
+            ctx.count('gen:' + k, v)
     for n in case.nodes:
         ctx.count('class:' + TAGS.get(type(n).__name__, '?'))
         if n.identifier:
             ctx.count('named-class:' + TAGS.get(type(n).__name__, '?'))
     expected_ids = sorted({n.identifier for n in case.named})
 
+    if getattr(case, 'failing', None) is not None:
+        ctx.count('%s:prelude:%s:%s' % (label, case.prelude, 'raised' if obs.get('failing', ('ok',))[0] == 'exc' else 'returned'))
+        if obs.get('failing', ('exc',))[0] == 'ok' and case.must_raise:
+            problems.append(('store', 'the %s store returned normally' % case.prelude))
     if obs['store'][0] != 'ok':
         if ans[0] == 'ok':
-            problems.append(('store', 'storing raised %s for a forest with unique identifiers' % obs['store'][1]))
+            problems.append(('store', 'storing raised %s for a forest with unique identifiers%s'
+                             % (obs['store'][1], ' (after a rejected store on the same PulseStorage: %s)' % case.prelude
+                                if getattr(case, 'failing', None) is not None else '')))
         else:
             ctx.count('%s:store-error' % label)
     elif ans[0] != 'ok':
@@ -885,6 +969,10 @@ def witness(name: str):
     if name == 'numpy_count':
         import numpy
         return [P.RepetitionPT(P.ConstantPT(1, {'A': 1}), numpy.int64(3), identifier='r')], [{}]
+    if name == 'rational_constants':
+        t = P.TablePT({'A': [(0, '1/3'), ('7/3', '5/8', 'linear')]}, measurements=[('m', '1/3', '2/3')])
+        return [P.RepetitionPT(P.MappingPT(t, parameter_mapping={}, identifier='m'), 'n', identifier='r',
+                               measurements=[('w', '5/7', '22/7')])], [{'n': 2}]
     if name == 'int_channel':
         return [P.TablePT({0: [(0, 1), (1, 2)]}, identifier='t')], [{}]
     if name == 'shared':
@@ -1008,6 +1096,9 @@ def malformed(ctx: core.Ctx):
         ('two-objects-one-id-child', [('p', par1), ('q', par2)]),
         ('same-object-twice', [('a', a1), ('a', a1), ('p', par1)]),
         ('child-then-parent', [('a', a1), ('p', par1)]),
+        ('two-objects-one-id-one-transaction', [('s', P.SequencePT(a1, a2, identifier='s'))]),
+        ('child-with-the-identifier-of-its-root', [('a', P.TimeReversalPT(a1, identifier='a'))]),
+        ('same-object-twice-one-transaction', [('s2', P.SequencePT(a1, a1, identifier='s2'))]),
         ('parent-then-child', [('p', par1), ('a', a1)]),
     ]
     for name, ops in store_cases:
@@ -1169,7 +1260,10 @@ def run(ctx: core.Ctx):
                 're-used as the same Python object by later parents, explicit stores = roots + random named nodes in '
                 'random order, backend dict / directory / zip; plus the targeted enumeration (every class x every '
                 'subset of its optional attributes x named/anonymous child) and a malformed stream (identifier '
-                'clashes, missing / cyclic / id-less references, missing / unexpected keys, unknown type). '
+                'clashes, missing / cyclic / id-less references, missing / unexpected keys, unknown type) and an '
+                'after-failure stream (a store that is rejected or fails mid-transaction - wrong key, identifier clash of '
+                'a nested template, identifier only in the backend, un-serialisable object - precedes valid stores on the '
+                'same PulseStorage). '
                 'Non-trivial = the forest has more than one named node (so references exist); distinct by the '
                 'canonical model request (tree shapes with identifiers)')
     ctx.assumptions = [
@@ -1191,8 +1285,11 @@ def run(ctx: core.Ctx):
                                  'child; 4 store orders of a shared object (%d cases)' % len(cases))
     run_cases(ctx, cases, 'enum')
     opts = {'depth': 3}
+    # a rejected / failing store on the same PulseStorage must not affect later stores
+    af_opts = {'depth': 2, 'roots': 2, 'assignments': 1}
+    run_cases(ctx, after_failure_cases(ctx, ctx.n(36, 600), 'after-failure', af_opts), 'after-failure')
     if ctx.quick:
-        run_cases(ctx, random_cases(ctx, 230, 'random', opts), 'random')
+        run_cases(ctx, random_cases(ctx, 210, 'random', opts), 'random')
         run_cases(ctx, random_cases(ctx, 30, 'abstract', dict(opts, allow_abstract=True)), 'abstract')
     else:
         import multiprocessing
@@ -1241,6 +1338,8 @@ def replay(ctx: core.Ctx, rec: dict, from_corpus: bool = False) -> bool:
                 roots, assign = witness(rec['name'])
             run_cases(ctx, [Built(roots, backend=backend, assign=assign,
                                   origin={'kind': 'witness', 'name': rec['name'], 'backends': [backend]})], 'corpus')
+    elif kind == 'after-failure':
+        run_cases(ctx, [AfterFailure(rec['case_seed'], rec.get('opts', {}), rec['prelude'])], 'replay')
     elif kind == 'enum':
         with warnings.catch_warnings():
             warnings.simplefilter('ignore')
